@@ -7,7 +7,10 @@ import (
 	"crypto/sha256"
 	"encoding/hex"
 	"fmt"
+	"math"
+	"math/big"
 	"reflect"
+	"sort"
 	"strconv"
 	"strings"
 
@@ -90,13 +93,13 @@ func decodeTree(j job, data []byte) (h string) {
 			case *decode.Compound:
 				fmt.Fprintf(hh, " c %v %d %q", c.IsArray, len(c.Children), c.Description)
 			case *scalar.BitBuf:
-				fmt.Fprintf(hh, " raw %v %q", c.Sym, c.Description)
+				fmt.Fprintf(hh, " raw %s %q", stable(c.Sym, 0), c.Description)
 			case interface {
 				ScalarActual() any
 				ScalarSym() any
 				ScalarDescription() string
 			}:
-				fmt.Fprintf(hh, " s %v|%v|%q", c.ScalarActual(), c.ScalarSym(), c.ScalarDescription())
+				fmt.Fprintf(hh, " s %s|%s|%q", stable(c.ScalarActual(), 0), stable(c.ScalarSym(), 0), c.ScalarDescription())
 			default:
 				fmt.Fprintf(hh, " ? %T", v.V)
 			}
@@ -111,6 +114,53 @@ func decodeTree(j job, data []byte) (h string) {
 		})
 	}
 	return hex.EncodeToString(hh.Sum(nil)[:8]) + "/" + strconv.Itoa(n)
+}
+
+// stable renders a scalar value without addresses: basic kinds, []byte, *big.Int, and maps/slices of
+// those (keys sorted); anything else (readers, binaries) by its type only.
+func stable(a any, depth int) string {
+	if a == nil {
+		return "nil"
+	}
+	if depth > 40 {
+		return "deep"
+	}
+	switch x := a.(type) {
+	case *big.Int:
+		if x == nil {
+			return "nil"
+		}
+		return "b" + x.String()
+	case []byte:
+		return "x" + hex.EncodeToString(x)
+	}
+	v := reflect.ValueOf(a)
+	switch v.Kind() {
+	case reflect.Bool, reflect.Int, reflect.Int8, reflect.Int16, reflect.Int32, reflect.Int64,
+		reflect.Uint, reflect.Uint8, reflect.Uint16, reflect.Uint32, reflect.Uint64:
+		return fmt.Sprintf("%v", a)
+	case reflect.Float32, reflect.Float64:
+		return strconv.FormatUint(math.Float64bits(v.Float()), 16)
+	case reflect.String:
+		return strconv.Quote(v.String())
+	case reflect.Slice, reflect.Array:
+		var sb strings.Builder
+		sb.WriteByte('[')
+		for i := 0; i < v.Len(); i++ {
+			sb.WriteString(stable(v.Index(i).Interface(), depth+1))
+			sb.WriteByte(',')
+		}
+		sb.WriteByte(']')
+		return sb.String()
+	case reflect.Map:
+		var es []string
+		for _, k := range v.MapKeys() {
+			es = append(es, stable(k.Interface(), depth+1)+":"+stable(v.MapIndex(k).Interface(), depth+1))
+		}
+		sort.Strings(es)
+		return "{" + strings.Join(es, ",") + "}"
+	}
+	return fmt.Sprintf("<%T>", a)
 }
 
 func shortHash(b []byte) string {
